@@ -1,6 +1,7 @@
 package main
 
 import (
+	"fmt"
 	"net/url"
 	"strconv"
 	"strings"
@@ -310,6 +311,42 @@ func flattenCorpus() []any {
 	return out
 }
 
+// flattenPlusCorpus: the inputs of the repaired C09 defects, always run first (each under the six option sets).
+func flattenPlusCorpus() []any {
+	info := M{"title": "t", "version": "1"}
+	resp := func(schemas ...M) M {
+		rs := M{}
+		for i, s := range schemas {
+			rs[fmt.Sprint(200+i)] = M{"description": "x", "schema": s}
+		}
+		return rs
+	}
+	self := "#/definitions/tree/properties/children"
+	bundles := []M{
+		// fix 6dcc395: a sub-schema that contains itself through an anonymous pointer, with a second caller
+		{"root": M{"swagger": "2.0", "info": info,
+			"paths":       M{"/trees": M{"get": M{"operationId": "listTrees", "responses": resp(M{"$ref": "#/definitions/tree"}, M{"$ref": self})}}},
+			"definitions": M{"tree": M{"type": "object", "properties": M{"label": M{"type": "string"}, "children": M{"type": "object", "additionalProperties": M{"$ref": self}}}}}},
+			"aux": M{}, "what": "self-containing-pointer-target"},
+		// fix 3893d90: an imported definition that collides by name and is an array / a map of itself
+		{"root": M{"swagger": "2.0", "info": info,
+			"paths":       M{"/a": M{"get": M{"operationId": "g", "responses": resp(M{"$ref": "aux/a.json#/definitions/thing"}, M{"$ref": "#/definitions/thing"})}}},
+			"definitions": M{"thing": M{"type": "object", "properties": M{"v": M{"type": "string"}}}}},
+			"aux": M{"aux/a.json": M{"definitions": M{"thing": M{"type": "array", "items": M{"$ref": "#/definitions/thing"}}}}}, "what": "collision-array-of-itself"},
+		{"root": M{"swagger": "2.0", "info": info,
+			"paths":       M{"/a": M{"get": M{"operationId": "g", "responses": resp(M{"$ref": "aux/a.json#/definitions/thing"}, M{"$ref": "#/definitions/thing"})}}},
+			"definitions": M{"thing": M{"type": "object", "properties": M{"v": M{"type": "string"}}}}},
+			"aux": M{"aux/a.json": M{"definitions": M{"thing": M{"type": "object", "additionalProperties": M{"$ref": "#/definitions/thing"}}}}}, "what": "collision-map-of-itself"},
+	}
+	var out []any
+	for _, b := range bundles {
+		for _, o := range optionSets {
+			out = append(out, M{"bundle": M{"root": b["root"], "aux": b["aux"]}, "opts": o.toJSON(), "repeats": 0, "permutes": 0, "faults": true, "plainNames": false, "mustFail": false, "plus": true, "plusWhat": b["what"]})
+		}
+	}
+	return out
+}
+
 // stream `flattenPlus` (C09): bundles of the wider class W+, only the fail-safe clauses are checked.
 var flattenPlusStream = (&StreamSpec{
 	Name:   "flattenPlus",
@@ -320,6 +357,7 @@ var flattenPlusStream = (&StreamSpec{
 	ImplBatch: func(ins []any) []any {
 		return runInChildren("flatten", ins, 25*time.Second, 14)
 	},
+	Corpus:     flattenPlusCorpus,
 	Nontrivial: func(c *Case) bool { return true },
 	Compare: func(c *Case, out any) []Finding {
 		return flattenFindings(c, false)
